@@ -15,9 +15,10 @@ PUNCT2 = ("::", "->", "=>", "==", "!=", "<=", ">=", "&&", "||", "+=", "-=", "*="
 
 
 class Tok:
-    __slots__ = ("text", "pre", "line", "kind", "deleted")
+    __slots__ = ("text", "pre", "line", "kind", "deleted", "region")
 
-    def __init__(self, text, pre, line, kind="tok", deleted=False):
+    def __init__(self, text, pre, line, kind="tok", deleted=False, region=None):
+        self.region = region  # template only: (id, name) of the hidden region the token belongs to
         self.text = text      # token text (or annotation text for kind == 'ins')
         self.pre = pre        # white space that preceded it ('' or ' ' or '\n   ')
         self.line = line
@@ -43,6 +44,8 @@ def lex(src, template=False):
     i, n, line = 0, len(src), 1
     pre = ""
     deleted = False
+    region = None
+    region_id = 0
     while i < n:
         c = src[i]
         if c in " \t\r\n":
@@ -67,16 +70,20 @@ def lex(src, template=False):
             i = j
             continue
         if src.startswith("/*", i):
-            if template and src.startswith("/*@<*/", i):
+            mh = re.match(r"/\*@<([A-Za-z_][A-Za-z0-9_]*)?\*/", src[i:i + 60]) if template else None
+            if mh:
                 if deleted:
                     raise LexError("nested /*@<*/ at line %d" % line)
                 deleted = True
-                i += 6
+                region_id += 1
+                region = (region_id, mh.group(1))
+                i += len(mh.group(0))
                 continue
             if template and src.startswith("/*@>*/", i):
                 if not deleted:
                     raise LexError("unmatched /*@>*/ at line %d" % line)
                 deleted = False
+                region = None
                 i += 6
                 continue
             if template and src.startswith("/*@", i):
@@ -157,7 +164,7 @@ def lex(src, template=False):
                         break
             if text is None:
                 text = c
-        toks.append(Tok(text, pre, line, "tok", deleted))
+        toks.append(Tok(text, pre, line, "tok", deleted, region))
         line += text.count("\n")
         pre = ""
         i += len(text)
